@@ -8,7 +8,7 @@ EXPLANATION = (
     "D1 operator scan table ('>' / '<' followed by '=' or not -> GE/LE/GT/LT with version start +2/+2/+1/+1) and validation table over (operator count 0/1/2/>=3 x operator kinds): Ok iff one operator, or two with the first in {GT,GE} and the second in {LT,LE}; "
     "bound texts and base are the slices between the recorded operator positions; each bound is DeweyMatch{op, DeweyVersion::new(text)}; "
     "D2 Dewey::matches splits at the last '-', compares the prefix with the stored base by full string equality (no prefix/suffix/case-folding test), a name without '-' is false, the suffix is the version; "
-    "D3 conjunction of bounds (shared with C03); D4 brace-free patterns with '<' or '>' are compiled by Dewey::new(pattern)? in Pattern::new and matched by Dewey::matches(pkg) in Pattern::matches, and the fast-reject in front of the delegate is inert (is_simple_char / quick_pkg_match / early-exit rules shared with C05)")
+    "D3 conjunction of bounds (shared with C03); D4 brace-free patterns with '<' or '>' are compiled by Dewey::new(pattern)? in Pattern::new and matched by Dewey::matches(pkg) in Pattern::matches, and the fast-reject in front of the delegate is inert (is_simple_char / quick_pkg_match / early-exit rules shared with C05); recognised spellings: the '=' look-ahead as get(i+1..i+2), [i+1..].starts_with('='), as_bytes().get(i+1); the validation as match on len() or as slice patterns; the bounds as pushes or as a vector literal (all bounds kept, in order)")
 NOT_DECIDED = ["byte-for-byte equality semantics of str::eq; match_indices / str::get semantics (std)"]
 CONFIG_SENSITIVE = False
 DESUGAR = True
